@@ -223,7 +223,10 @@ def M_malformed_reference(rng, form):
         return None
     i = rng.choice(qs)
     col = rng.choice(["relevant", "constraint", "hint"])
-    rows_of(form)[i][col] = rng.choice(["${q", "${a b}", "${a} ${", "${${a}}", "${a$}"])
+    rows_of(form)[i][col] = rng.choice(["${q", "${a b}", "${a} ${", "${${a}}", "${a$}", "${", "x ${"])
+    if rng.random() < 0.3:
+        # the syntax of references is checked whether or not the cells are cleaned
+        form.setdefault("settings", [{}])[0]["clean_text_values"] = rng.choice(["no", "false"])
     return {"kind": r"On the 'survey' sheet, the '" + col + r"' value is invalid. Reference expressions must", "row": i + 2}
 
 
@@ -258,6 +261,28 @@ def M_bad_parameters(rng, form):
     i = rng.choice(qs)
     rows_of(form)[i]["parameters"] = rng.choice(["rows", "x y", "a;b"])
     return {"kind": r"Expecting parameters to be in the form of", "row": None}
+
+
+def M_bad_parameter_value(rng, form):
+    """a parameter whose value is not what its user accepts: a second '=' in it, a range bound that is not a finite number"""
+    kind = rng.choice(["eq", "eq", "range", "range"])
+    if kind == "eq":
+        t, prm, msg = rng.choice([("image", "max-pixels=6=40", r"Parameter max-pixels must have an integer value"), ("text", "rows=3=4", r"Parameter rows must have an integer value"),
+                                  ("range", "start=1=2 end=5", r"Range parameters 'start', 'end' or 'step' must all be numbers")])
+    else:
+        t, prm, msg = "range", rng.choice(["start=nan end=5", "start=1 end=inf", "step=-inf", "start=1 end=5 step=nan", "end=infinity"]), r"Range parameters 'start', 'end' or 'step' must all be numbers"
+    rows_of(form).append({"type": t, "name": "bad_param_q", "label": "Q", "parameters": prm})
+    return {"kind": msg, "row": None}
+
+
+def M_hidden_trigger(rng, form):
+    """a calculation or a background-geopoint triggered by a question that has no control to hold the action"""
+    rows_of(form).append({"type": "calculate", "name": "hidden_trg", "calculation": "1 + 1"})
+    if rng.random() < 0.5:
+        rows_of(form).append({"type": "background-geopoint", "name": "bg_after_hidden", "trigger": "${hidden_trg}"})
+    else:
+        rows_of(form).append({"type": "calculate", "name": "calc_after_hidden", "calculation": "2", "trigger": "${hidden_trg}"})
+    return {"kind": r"is not user-visible so it can't be used as a calculation trigger", "row": None}
 
 
 def M_unknown_parameter(rng, form):
@@ -405,7 +430,7 @@ def M_saveto_in_repeat(rng, form):
     return {"kind": r"Currently, you can't create entities from repeats", "row": len(rows_of(form)) + 2 - 1 - depth - 1}
 
 
-MUTATIONS = [M_saveto_in_repeat, M_geopoint_trigger_not_a_question, M_file_instance_clash, M_ambiguous_reference, M_or_other_without_choices, M_unmatched_end, M_mismatched_end, M_unclosed_begin, M_duplicate_sibling, M_invalid_name, M_unknown_reference, M_malformed_reference,
+MUTATIONS = [M_bad_parameter_value, M_hidden_trigger, M_saveto_in_repeat, M_geopoint_trigger_not_a_question, M_file_instance_clash, M_ambiguous_reference, M_or_other_without_choices, M_unmatched_end, M_mismatched_end, M_unclosed_begin, M_duplicate_sibling, M_invalid_name, M_unknown_reference, M_malformed_reference,
              M_unknown_type, M_missing_list, M_calculate_without_calculation, M_bad_parameters, M_unknown_parameter, M_instance_clash,
              M_duplicate_choice, M_missing_name, M_missing_label, M_duplicate_header, M_spaces_in_multi_choice]
 
@@ -468,6 +493,12 @@ def _check_mutation(args):
 # ---- vocabulary fuzz ----------------------------------------------------------------------------------------------------------------
 def fuzz_form(rng):
     from pyxform.question_type_dictionary import QUESTION_TYPE_DICT
+    if rng.random() < 0.03:
+        # an external instance row inside groups of a form written flat
+        return {"survey": [{"type": "begin group", "name": "g", "label": "G"}, {"type": rng.choice(["xml-external", "csv-external"]), "name": "city"},
+                           {"type": "begin group", "name": "h", "label": "H"}, {"type": rng.choice(["xml-external", "text"]), "name": "town", "label": "T"}, {"type": "end group"},
+                           {"type": "text", "name": "q", "label": "Q"}, {"type": "end group"}],
+                "settings": [{"flat": rng.choice(["yes", "true", "no"])}]}
     if rng.random() < 0.04:
         # a well-formed loop over a list whose sheet has columns named like the fields of the group built for each choice
         cols = rng.sample(["type", "bind", "control", "children", "flat", "parameters", "media", "hint", "default", "relevant", "trigger", "x"], rng.randint(1, 3))
